@@ -12,6 +12,7 @@ import (
 	"encoding/json"
 	"fmt"
 	"io/ioutil"
+	"os"
 	"math"
 	"math/big"
 	"net"
@@ -1234,6 +1235,21 @@ func main() {
 		}
 		if len(terms) > 0 {
 			run.WriteCasesV(fmt.Sprintf("cases_%d.v", start), []string{"Sql.Codec", "Sql.CodecTime"}, g.prelude(), "mm", 0, terms)
+		}
+	}
+	// the codec's constant sets and dispatch tables, extracted from the source of the tree under test (component 12)
+	if o.Replay == "" {
+		tabs, err := extractTables(o.Repo)
+		if err != nil {
+			tabs = make([]string, len(tableNames))
+			for i := range tabs {
+				tabs[i] = "[]"
+			}
+			run.Hist("tables:source-not-parsed")
+		}
+		run.WriteCasesV("cases_tables.v", []string{"Sql.Codec", "Sql.FieldTables"}, tablesPrelude(tabs), "tmm", 0, []string{"tt"})
+		if f := os.Getenv("C13_WRITE_SNAPSHOT"); f != "" && err == nil {
+			ioutil.WriteFile(f, []byte(snapshotFile(tabs)), 0o644)
 		}
 	}
 	run.Finish()
